@@ -770,6 +770,9 @@ func c09(c *Ctx) {
 					{"tcp-refused", "tcp", "error", 0, true}}[r.Pick(5)])
 			}
 			kinds = append(kinds, []behaviour{{"reply-0.7T", "udp", "success", 0, false}, {"reply-0.7T", "broadcast", "success", 0, false}, {"prompt", "udp", "success", 0, false}}[r.Pick(3)])
+			if round%2 == 1 {
+				kinds[1] = behaviour{"discovery", "broadcast", "success", 0, true} // a discovery waits its turn like any other call (through the wildcard address in these rounds)
+			}
 			results := make([]c09Result, k)
 			bindFailures := 0
 			for attempt := 0; attempt < 2; attempt++ {
@@ -822,7 +825,7 @@ func c09(c *Ctx) {
 					if strings.Contains(results[i].err, "address already in use") {
 						caseNo++
 						c.Res.Eval(1)
-						c.Res.Violate("C09:port-queue:not-served-in-turn", fmt.Sprintf("%s over %s: a call sharing the fixed bind port %d with %d other calls of this process failed with %q instead of waiting its turn (seen on two rounds with different ports)", kinds[i].name, kinds[i].path, port, k-1, results[i].err),
+						c.Res.Violate("C09:port-queue:not-served-in-turn:"+kinds[i].name, fmt.Sprintf("%s over %s: a call sharing the fixed bind port %d with %d other calls of this process failed with %q instead of waiting its turn (seen on two rounds with different ports)", kinds[i].name, kinds[i].path, port, k-1, results[i].err),
 							map[string]any{"behaviour": kinds[i].name, "path": kinds[i].path, "err": results[i].err, "calls_sharing_the_port": k}, caseNo)
 						break
 					}
